@@ -26,6 +26,7 @@ int vp_in_n;
 #define VP_INPUT(v) do { __typeof__(v) vp_t_; (v) = vp_t_; vp_in_log[vp_in_n++] = (uint64_t)(v); } while(0)
 #define VP_INPUT_RANGE(v, lo, hi) do { VP_INPUT(v); __CPROVER_assume((v) >= (lo) && (v) <= (hi)); } while(0)
 #define VP_OBSERVE(x) ((void)0)
+#define VP_PRE_OR(c, stmt) __CPROVER_assume(c)   /* precondition of one step; a native random run skips the step instead (stmt) */
 #define VP_STOP() __CPROVER_assume(0)
 #define VP_NATIVE_ONLY(x)
 #ifdef VP_WITNESS_ON   /* reachability twin: every WITNESS assertion must FAIL (= the point is reachable under the assumptions) */
@@ -59,6 +60,7 @@ static uint64_t vp_next_input(void) {
 #define VP_ASSUME(c) do { if(!(c)) { if(!vp_quiet) printf("VP-ASSUME-FALSE: %s\n", #c); fflush(stdout); exit(78); } } while(0)
 #define VP_INPUT(v) do { (v) = (__typeof__(v))vp_next_input(); } while(0)
 #define VP_INPUT_RANGE(v, lo, hi) do { VP_INPUT(v); if(getenv("VP_RANDOM")) { int64_t vp_l = (int64_t)(lo), vp_h = (int64_t)(hi); (v) = (__typeof__(v))(vp_l + (int64_t)((uint64_t)(v) % (uint64_t)(vp_h - vp_l + 1))); } VP_ASSUME((v) >= (lo) && (v) <= (hi)); } while(0)
+#define VP_PRE_OR(c, stmt) do { if(!(c)) { if(getenv("VP_RANDOM")) { stmt; } else VP_ASSUME(c); } } while(0)
 #define VP_OBSERVE(x) do { printf("obs %s=%lld\n", #x, (long long)(x)); } while(0)
 #define VP_STOP() do { printf("VP-STOP (library assertion hook)\n"); fflush(stdout); exit(76); } while(0)
 #define VP_NATIVE_ONLY(x) x
